@@ -294,7 +294,11 @@ class Inliner:
                             for ch in other.body:
                                 if isinstance(ch, ast.FunctionDef) and ch.name == al.name:
                                     try:
-                                        self.new[('f', al.asname or al.name)] = Helper(f'{rp}:{al.name}', ch, None)
+                                        hobj = Helper(f'{rp}:{al.name}', ch, None)
+                                        # constants of the helper's own module that its body refers to travel with it
+                                        hobj.module_consts = {st2.targets[0].id: st2.value for st2 in other.body if isinstance(st2, ast.Assign) and len(st2.targets) == 1
+                                                              and isinstance(st2.targets[0], ast.Name) and isinstance(st2.value, ast.Constant)}
+                                        self.new[('f', al.asname or al.name)] = hobj
                                     except NotInlinable as e:
                                         self.skipped.append((al.name, str(e)))
 
@@ -362,6 +366,9 @@ class Inliner:
             else:
                 pre.append(ast.copy_location(ast.Assign(targets=[ast.Name(id=p, ctx=ast.Store())], value=copy.deepcopy(a)), call))
         body = copy.deepcopy(h.f.body)
+        mc = {k: v for k, v in getattr(h, 'module_consts', {}).items() if k not in stored and k not in h.params}
+        if mc:
+            body = [_Subst(mc).visit(x) for x in body]
         if sub:
             body = [_Subst(sub).visit(x) for x in body]
         # helper locals that are not locals of the calling function in the reference get a fresh name per inlined instance (two inlined
